@@ -1710,6 +1710,47 @@ pub fn c12(rec: &mut Rec, rng: &mut Rng, thorough: bool) {
     unsafe {
         libc::close(0);
     }
+    // two descriptor-carrying messages queued in the socket at once (two sendmsg calls of the peer before the owner gets
+    // round to reading): each try_read takes one message, and each request gets the descriptors that arrived with ITS bytes
+    for form in 0..6 {
+        for (nf1, nf2) in [(1usize, 1usize), (2, 3), (1, 0), (0, 2)] {
+            rec.case("two-messages-queued");
+            rec.nontrivial();
+            let mut d = ConnDriver::new(rec, 51200);
+            let a: &[u8] = b"GET /a HTTP/1.1\r\n\r\n";
+            let (m1, m2): (Vec<u8>, Vec<u8>) = match form {
+                0 => (a.to_vec(), b"GET /b HTTP/1.1\r\n\r\n".to_vec()),
+                1 => (a.to_vec(), b"GET /b HT".to_vec()),
+                2 => (b"GET /a HTTP/1.1\r\nX: 1\r\n".to_vec(), b"\r\nGET /b HTTP/1.1\r\n\r\n".to_vec()),
+                3 => (b"PUT /a HTTP/1.1\r\nContent-Length: 4\r\n\r\nab".to_vec(), b"cdGET /b HTTP/1.1\r\n\r\n".to_vec()),
+                4 => ([a, a].concat(), b"GET /b HTTP/1.1\r\n\r\n".to_vec()),
+                _ => (a.to_vec(), b"\r\n".to_vec()),
+            };
+            let first_tok = d.tokens.next;
+            let (_r1, r2) = d.recv_two_queued(rec, &m1, nf1, &m2, nf2);
+            if r2 == "TAKEN-EARLY" {
+                continue;
+            }
+            if form == 1 {
+                d.recv(rec, b"TP/1.1\r\n\r\n", 0);
+            }
+            let del = d.popall(rec);
+            // what the statement says: descriptors go, in arrival order, to the first request that completes in the read
+            // they arrived with or in a later one
+            let t1: Vec<usize> = (first_tok..first_tok + nf1).collect();
+            let t2: Vec<usize> = (first_tok + nf1..first_tok + nf1 + nf2).collect();
+            let want: Vec<Vec<usize>> = match form {
+                0 | 1 => vec![t1.clone(), t2.clone()],
+                2 | 3 => vec![[t1.clone(), t2.clone()].concat(), vec![]],
+                4 => vec![t1.clone(), vec![], t2.clone()],
+                _ => vec![t1.clone()],
+            };
+            let got: Vec<Vec<usize>> = del.iter().map(|x| x.files.clone()).collect();
+            if got != want {
+                rec.oracle_fail("C12", &format!("two messages queued (form {}, {} + {} descriptors): requests were delivered with descriptors {:?}, the arrival order gives {:?}", form, nf1, nf2, got, want), &d.log);
+            }
+        }
+    }
     // descriptor NUMBERS come back: the application drops a delivered request (closing its descriptors), and descriptors
     // received later on the same connection get those numbers again — they are new descriptors and are delivered
     for k in 0..(if thorough { 200 } else { 20 }) {
